@@ -569,12 +569,13 @@ int main(int argc, char** argv)
 #else
     if (t == "ovd") return machine<xtl::xoptional_vector<double>>().run();
     if (t == "ovb") return machine<xtl::xoptional_vector<int, std::allocator<int>, std::vector<bool>>>().run();
+    if (t == "ovn") return machine<xtl::xoptional_vector<int, std::allocator<int>, xtl::xdynamic_bitset<std::uint8_t>>>().run();
     if (t == "oab3") return machine<xtl::xoptional_array<int, 3, std::array<bool, 3>>>().run();
     if (t == "oa0") return machine<xtl::xoptional_array<int, 0>>().run();
     if (t == "ca0") return machine<xtl::xcomplex_array<double, 0>>().run();
     if (t == "cvi") return machine<xtl::xcomplex_vector<double, true>>().run();
     if (t == "cai3") return machine<xtl::xcomplex_array<double, 3, true>>().run();
-    std::fprintf(stderr, "usage: driver {ovd|ovb|oab3|oa0|ca0|cvi|cai3} < script\n");
+    std::fprintf(stderr, "usage: driver {ovd|ovb|ovn|oab3|oa0|ca0|cvi|cai3} < script\n");
 #endif
     return 3;
 }
